@@ -141,26 +141,12 @@ theorem residual_bound (H d1 d2 mm : ℝ) (hH : |H| ≤ 1 / 2) (h1 : 17 / 10 ≤
         mul_le_mul hH hk (abs_nonneg _) (by norm_num)
     _ = 1 / 3800 := by norm_num
 
-/-- **right-ascension wrap**: if prev, cur, next are the reductions into [0,360) of an unwrapped
-    sequence P < C < N with daily steps in (0°, 10°) and C itself in [0,360), the interpolation
-    deltas are those of the unwrapped sequence.  False of the code as first found (`prev_ra = 0.`):
-    then `Gen.raWrapPrev` is the constant 0 and this theorem does not check. -/
+/-- **right-ascension wrap** (proved in Thm/C13 `ra_wrap_lift`; restated here because C01 depends on it):
+    the interpolation deltas are those of the unwrapped sequence -/
 theorem ra_wrap_lift (P C N : ℝ) (hC0 : 0 ≤ C) (hC1 : C < 360)
     (hp0 : 0 < C - P) (hp1 : C - P < 10) (hn0 : 0 < N - C) (hn1 : N - C < 10) :
-    raInterpDeltas (if P < 0 then P + 360 else P) C (if 360 ≤ N then N - 360 else N) = (N - P, N + P - 2 * C) := by
-  simp only [raInterpDeltas, Gen.raWrapNext, Gen.raWrapPrev, sc_ltb, c_RA_WRAP_HI, c_RA_WRAP_LO, c_TWO_PI_DEG, lit_two,
-    Bool.and_eq_true, decide_eq_true_eq]
-  by_cases hP : P < 0 <;> by_cases hN : 360 ≤ N <;> simp only [hP, hN, if_true, if_false]
-  · exfalso; linarith
-  · have a : ¬ (350 < C ∧ N < 10) := fun h => by linarith [h.1, h.2]
-    have b : 350 < P + 360 ∧ C < 10 := ⟨by linarith, by linarith⟩
-    simp only [a, b, if_true, if_false]; ext <;> simp <;> ring
-  · have a : 350 < C ∧ N - 360 < 10 := ⟨by linarith, by linarith⟩
-    have b : ¬ (350 < P ∧ C < 10) := fun h => by linarith [h.1, h.2]
-    simp only [a, b, if_true, if_false]; ext <;> simp <;> ring
-  · have a : ¬ (350 < C ∧ N < 10) := fun h => by linarith [h.1, h.2]
-    have b : ¬ (350 < P ∧ C < 10) := fun h => by linarith [h.1, h.2]
-    simp only [a, b, if_false]
+    raInterpDeltas (if P < 0 then P + 360 else P) C (if 360 ≤ N then N - 360 else N) = (N - P, N + P - 2 * C) :=
+  C13.ra_wrap_lift P C N hC0 hC1 hp0 hp1 hn0 hn1
 
 -- non-vacuity: the day after the equinox wrap (359.5°, 0.5°, 1.5°) meets the hypotheses with P = −0.5
 example : (0 : ℝ) ≤ 0.5 ∧ (0.5 : ℝ) < 360 ∧ (0 : ℝ) < 0.5 - (-0.5) ∧ (0.5 : ℝ) - (-0.5) < 10 := by norm_num
